@@ -241,6 +241,18 @@ def Ty.posL : List Ty → Bool
   | f :: fs => f.pos || Ty.posL fs
 end
 
+mutual
+/-- every array inside the type has an element type of positive size (a lying count then cannot
+make the decoder iterate more often than there are bytes) -/
+def Ty.arrOk : Ty → Bool
+  | .prim _ => true
+  | .arr e => e.pos && e.arrOk
+  | .record fs => Ty.arrOkL fs
+def Ty.arrOkL : List Ty → Bool
+  | [] => true
+  | f :: fs => f.arrOk && Ty.arrOkL fs
+end
+
 /-! ## Top-level fields: guards, trailing optionals, defaults -/
 
 def Val.truthy : Val → Bool
